@@ -18,7 +18,8 @@ CHECKS = {
  "C16": ("proof for drive-number arithmetic and check_sequence_fits", "connect_drives, mount, MMB history clause outside so far"),
  "C08": ("proof: safety obligations of every basic/ function for arbitrary bytes, exit status in {0,1}, non-zero => diagnostic", "libc modelled (stdio, getopt, strtol, strcmp); <= 64 argv words"),
  "C09": ("proof: framing automaton, no-invention precondition on decode_line, token rejection", "stated allowances (empty file, trailing bytes after LE marker, 0D FF xx)"),
- "C11": ("proof for bbcbasic_to_text under the strict write-failure model", "dfs half not yet under contract; -D dump contract assumed"),
+ "C10": ("proof of clause (ii) under the zlib.h contract of inflate: no byte lost or duplicated, normal exit only at Z_STREAM_END, every other outcome an exception by value", "clause (i) (extension/hint logic) is outside the verified set; zlib itself assumed"),
+ "C11": ("proof for bbcbasic_to_text under the strict write-failure model; dfs: main tail (flush + test of std::cout), type body, write_span of extract-unused", "other dfs commands rely on the main-tail check; extract-files' ofstream handling not under contract; -D dump contract assumed"),
  "C17": ("proof for Volume::Access::read_block and the sector walk", "Opus volume table construction and flux adapters outside so far"),
  "C19": ("proof: every basic/ harness in both assert configurations against the same contracts", "functions outside the verified set only covered by a clang-tidy supporting fact"),
 }
@@ -26,7 +27,7 @@ NA = {
  "C18": "relational two-run property about iostream formatting inside functions that cannot be extracted; the extractor drops `if (verbose)` blocks by rule, so the verified text cannot speak about them (DESIGN.md C18)",
 }
 PENDING = {k: "contract not implemented yet (see DESIGN.md section 3 for the plan)" for k in
-           ["C10"]}
+           []}
 def main():
     checks = []
     for pid in sorted(CHECKS):
